@@ -162,6 +162,24 @@ pub fn c06(g: &mut Gen) {
             g.group(lines);
         }
     }
+    // values reached through mutation histories (pops and shrinking resizes must leave exactly the words the length needs):
+    // sizes as predicted, round trip, back-to-back
+    let nh = if g.thorough { 400 } else { 80 };
+    for i in 0..nh {
+        let w = [64u64, 1, 8, 13, 32, 33, 63, 21, 7, 16][i % 10];
+        let n = g.rng.range(1, 24) as usize;
+        let mut ops: Vec<usize> = (0..n).map(|_| 0).collect();
+        for _ in 0..g.rng.range(1, 10) { ops.push(*g.rng.pick(&[2usize, 2, 2, 6, 0])); }
+        let mut lines = crate::gen_more::iv_history(g, w, &ops, false);
+        lines.push("ser sizes A".to_string()); lines.push("ser reload A Y extra=1".to_string()); lines.push("iv Y items".to_string()); lines.push("ser seq A B A".to_string());
+        g.group(lines);
+        let n = g.rng.range(1, 20) as usize;
+        let mut ops: Vec<usize> = (0..n).map(|_| 1).collect();
+        for _ in 0..g.rng.range(1, 12) { ops.push(*g.rng.pick(&[3usize, 3, 3, 2, 7, 1])); }
+        let mut lines = crate::gen_more::raw_history(g, &ops);
+        lines.push("ser sizes A".to_string()); lines.push("ser reload A Y extra=2".to_string()); lines.push("ser seq A B A".to_string());
+        g.group(lines);
+    }
     // structures whose loaders REBUILD what is not stored: run-length vectors with more than 8 blocks (the three sample
     // indexes have more than one sample only then), and bitvectors / sparse vectors with several select superblocks
     for nruns in (if g.thorough { vec![300usize, 700, 3300] } else { vec![300usize, 700] }) {
@@ -205,7 +223,20 @@ pub fn c06(g: &mut Gen) {
     }
 }
 
+/// optional structures whose size is around multiples of 8192 elements (64 KiB), followed by marker words
+pub fn big_options(g: &mut Gen) {
+    let mut lines = Vec::new();
+    let sizes: Vec<usize> = if g.thorough { vec![8190, 8191, 8192, 8193, 16383, 16384, 16385, 24576, 65536] } else { vec![8191, 8192, 8193, 16384] };
+    for n in sizes {
+        let body: Vec<String> = (0..n).map(|i| ((i * 7 + 3) % 10).to_string()).collect();
+        lines.push(format!("ser skipopt cut=- : {} {} 77 78", n, body.join(" ")));
+        lines.push(format!("ser skipopt cut={} : {} {} 77 78", 8 * n, n, body.join(" ")));
+    }
+    g.group(lines);
+}
+
 pub fn c19(g: &mut Gen) {
+    big_options(g);
     // 8 subsets of supports at write time x orders of enable_* interleaved with serialize / load
     let orders = ["rsz", "rzs", "srz", "szr", "zrs", "zsr"];
     for (len, kind) in [(0usize, 0usize), (1, 1), (70, 2), (600, 3), (5000, 2), (4200, 4)] {
@@ -254,6 +285,7 @@ pub fn c19(g: &mut Gen) {
 }
 
 pub fn c14(g: &mut Gen) {
+    big_options(g);
     // every strict prefix of a serialization is refused; every write budget below the size fails
     let sizes: Vec<usize> = if g.thorough { vec![0, 1, 70, 130, 700] } else { vec![0, 1, 70, 300] };
     for size in sizes {
@@ -300,6 +332,12 @@ pub fn c14(g: &mut Gen) {
         let vals: Vec<String> = (0..40).map(|_| format!("p{}", g.rng.next())).collect();
         lines.push(format!("wr limit {} int 17 8 : {} c", lim, vals.join(" ")));
         lines.push(format!("wr limit {} int 64 2 : {} c", lim, vals.join(" ")));
+        // retries: a second / third close() after a failed one, and close() after pushes that panicked, must not turn
+        // the failure into a reported success
+        lines.push(format!("wr limit {} raw 64 : {} c c c", lim, pushes.join(" ")));
+        lines.push(format!("wr limit {} raw 1000000 : {} c c", lim, pushes.join(" ")));
+        lines.push(format!("wr limit {} int 17 8 : {} c c", lim, vals.join(" ")));
+        lines.push(format!("wr limit {} int 33 100000 : {} c c c", lim, vals.join(" ")));
         g.group(lines);
     }
 }
@@ -462,6 +500,23 @@ pub fn c07(g: &mut Gen) {
             lines.push(format!("sp S it one : {} l", vec!["n"; vals.len()].join(" ")));
             g.group(lines);
         }
+    }
+    // run-length files of the document with lengths in the top half of the usize range
+    for (len, runs) in [(MAXU, vec![(5u64, 3u64)]), ((1u64 << 63) + 5, vec![(0, 1), (1u64 << 63, 3)]), (MAXU - 1, vec![(1u64 << 62, 1u64 << 62), ((1u64 << 63) + 9, 1u64 << 61)]), (1u64 << 63, vec![])] {
+        let mut lines = Vec::new();
+        for extra in [0u64, 3] {
+            lines.push(format!("ser load rl cut=- x=ok store=R{} : {}", extra, ws(&doc_rl(len, &runs, extra))));
+            lines.push(format!("rl R{} ref {} {}", extra, len, runs.iter().map(|(a, l)| format!("{},{}", a, l)).collect::<Vec<_>>().join(" ")));
+            lines.push(format!("rl R{} len", extra)); lines.push(format!("rl R{} ones", extra)); lines.push(format!("rl R{} runs", extra));
+            for x in [0u64, 5, 7, 8, 1u64 << 62, 1u64 << 63, (1u64 << 63) + 2, len / 2, len - 1, len] {
+                if x < len { lines.push(format!("rl R{} get {}", extra, x)); }
+                lines.push(format!("rl R{} rank {}", extra, x)); lines.push(format!("rl R{} pred {}", extra, x)); lines.push(format!("rl R{} succ {}", extra, x));
+                lines.push(format!("rl R{} select0 {}", extra, x));
+            }
+            for r in [0u64, 1, 2, 3, 1u64 << 61] { lines.push(format!("rl R{} select {}", extra, r)); }
+            lines.push(format!("rl R{} ser", extra));
+        }
+        g.group(lines);
     }
     for size in [0usize, 1, 64, 65, 1000, 5000] {
         let bits = make_bits(g, size, if size % 2 == 0 { 2 } else { 6 });
